@@ -20,6 +20,10 @@ ASSUMPTIONS = ["Go panics, stack exhaustion and hangs are runtime behaviour a Ga
 TRUSTED = []
 
 SHAPES = [
+    # keys spelled like internal Go fields of the declaration types (any letter case), at the top level and in import options
+    "syntax: 1\nvalues: {a: 1}\n", "Source: abc\nvalues: {a: 1}\n", "declNode: {x: 1}\n", "Syntax: [1]\nSOURCE: ~\n",
+    "imports: [{a: {syntax: 1}}]\n", "imports: [{a: {declNode: 1, merge: false}}]\n", "imports: [{a: {Source: x, Merge: true}}]\n",
+    "values: {syntax: 1, source: 2, declNode: 3}\nname: x\nenvironment: y\nMeta: 1\nvalue: 2\nEntries: []\nkey: k\n",
     "values:\n  s: {fn::secret: \"\"}\n  t: {fn::secret: {ciphertext: \"\"}}\n  u: {fn::secret: \"\"}\n",
     "values:\n  a: [[[[[[[[[[[[[[[[[[[[[[[[[[[[[[[[[[[[[[[[[[[[[[[[[[[[[[[[[[[[[[[[1]]]]]]]]]]]]]]]]]]]]]]]]]]]]]]]]]]]]]]]]]]]]]]]]]]]]]]]]]]]]]]]]]\n",
     "values:\n  a: &x [1, 2]\n  b: [*x, *x, *x, *x, *x, *x, *x, *x]\n  c: &y [*x, *x]\n  d: [*y, *y, *y, *y]\n",
